@@ -334,11 +334,42 @@ class Runner:
             out.append([1, e])
             out.append([1, e])
 
+        tail = self.run_direct(A, okA, enc_reg)
         # hash ties (the model's hash input is what sha256 is applied to)
         out.append(bool(not okA or A.static_hash() == _expected_layout_hash(A.dimensionality, A.coords)))
         out.append(bool(not okW or Wm.static_hash() == _expected_wmap_hash(
             Wm.dimensionality, Wm.sorted_coords, Wm.sorted_weights, "DetuningMap")))
+        out.append(tail)
+        info["direct_ok"] = bool(tail[0] == 0)
+        if okA and _has_value_dups([tuple(map(float, r)) for r in c["coords"]]):
+            self.bad("layout:accepted-duplicate-traps", f"RegisterLayout accepted duplicate coordinates {c['coords']}")
         return dict(out=out, info=info), self.viol
+
+    # ------------------------------------------------------------------
+    def run_direct(self, A, okA, enc_reg):
+        """Register({qid: coord}, layout=A, trap_ids=ids): _validate_layout"""
+        import pulser
+
+        c = self.case
+        direct, dids = c.get("direct", []), c.get("dids", [])
+        if not okA:
+            return [1, _ecode(A)]
+        cls = pulser.Register3D if (direct and len(direct[0][1]) == 3) else pulser.Register
+        okD, RD = _try(lambda: cls({qname(q): list(p) for q, p in direct}, layout=A, trap_ids=list(dids)))
+        n = A.number_of_traps
+        rows = A.coords
+        shape_ok = bool(direct) and all(len(p) == A.dimensionality for _, p in direct)
+        ids_ok = len(set(dids)) == len(dids) and len(dids) == len(direct) and all(0 <= t < n for t in dids)
+        on_traps = shape_ok and ids_ok and all(
+            _bits(np.asarray(p, dtype=float) + 0.0) == _bits(rows[t] + 0.0) for (_, p), t in zip(direct, dids))
+        if okD and not on_traps:
+            neg = shape_ok and len(set(dids)) == len(dids) and len(dids) == len(direct) and \
+                all(-n <= t < n for t in dids) and any(t < 0 for t in dids)
+            self.bad("register-with-layout:accepted-mismatch" + (":negative-trap-id" if neg else ""),
+                     f"Register({direct}, layout, trap_ids={dids}) accepted; traps {rows.tolist()}")
+        if not okD and on_traps:
+            self.bad("register-with-layout:rejected-valid", f"Register({direct}, trap_ids={dids}) raised {RD!r}")
+        return _res(okD, RD, enc_reg)
 
     # ------------------------------------------------------------------ clauses
     def check_layout(self, L, given, tag):
